@@ -203,7 +203,7 @@ def gen_samples():
 
     return st.fixed_dictionaries({"d": st.integers(1, 6), "pen": st.sampled_from(["diff", "random"]), "order": st.integers(0, 3),
                                   "r": st.integers(1, 6), "seed": st.integers(0, 10**6), "logscale": f32(-2, 2), "case_seed": st.integers(0, 2**30),
-                                  "loc_batch": st.sampled_from([[], [2]])})
+                                  "loc_batch": st.sampled_from([[], [2]]), "small_tol": st.booleans()})
 
 
 def oracle_samples(c):
@@ -212,6 +212,10 @@ def oracle_samples(c):
     scale = 10 ** c["logscale"]
     if not x64():
         scale = 1.0 / max(np.linalg.eigvalsh(K)[-1], 1e-12)     # spectral norm 1 in float32 (domain note)
+    kw = {}
+    if c.get("small_tol") and x64():
+        # weak precision (non-zero eigenvalues down to ~1e-10) with the documented `tol` argument lowered accordingly
+        scale, kw = scale * 1e-7, {"tol": 1e-13}
     P = K * scale
     w, V = np.linalg.eigh(P)
     N, R, lam = V[:, : d - r], V[:, d - r:], w[d - r:]
@@ -219,7 +223,7 @@ def oracle_samples(c):
     lb = tuple(c["loc_batch"])
     loc = rng.normal(size=lb + (d,))
     dt = fdtype()
-    dist = MultivariateNormalDegenerate(loc=jnp.asarray(loc.astype(dt)), prec=jnp.asarray(P.astype(dt)), rank=r)
+    dist = MultivariateNormalDegenerate(loc=jnp.asarray(loc.astype(dt)), prec=jnp.asarray(P.astype(dt)), rank=r, **kw)
 
     def stat(n, subseed):
         xs = np.asarray(dist.sample(n, seed=jax.random.PRNGKey((c["case_seed"] + 7919 * subseed) % 2**31)), dtype=np.float64)
@@ -243,7 +247,7 @@ def oracle_samples(c):
     sig, rep = stats.decide(stat, 4096, 1)
     if sig:
         raise Violation("mvnd:sample-covariance-not-pseudo-inverse:" + sig.rstrip("0123456789"), f"{c} {rep}")
-    return {"nt": r < d, "cls": ["x64" if x64() else "f32", f"r{'<' if r < d else '='}d"], "extra": {"max_abs_z": rep["max_abs_z"]}}
+    return {"nt": r < d, "cls": ["x64" if x64() else "f32", f"r{'<' if r < d else '='}d", "small-tol" if kw else "default-tol"], "extra": {"max_abs_z": rep["max_abs_z"]}}
 
 
 # ------------------------------------------------------------------------------ bijector
